@@ -241,9 +241,36 @@ def gen_pool(r):
     shared_seed = r.randrange(1 << 30)
     lut_q = [round(r.choice([0.02, 0.05, 0.1]), 3), r.choice([-128, 0, 3])]
     for k in range(r.choice([3, 4, 5])):
-        style = r.choice(["lut", "lut", "conv", "generated", "generated"])
+        style = r.choice(["lut", "lut", "conv", "generated", "generated", "branchy", "branchy"])
         if style == "generated":
             rec = netgen.gen_recipe(r, profile=r.choice(["mixed", "lut", "npu_only"]))
+        elif style == "branchy":
+            # several branches and outputs with different sizes and lifetimes: the allocators' initial order is rarely optimal,
+            # so their search (and whatever state it keeps between compilations) actually runs
+            H, W, C = r.choice([(12, 12, 8), (16, 8, 4), (10, 10, 16)])
+            vals = [(H, W, C)]
+            layers = []
+            for li in range(r.randint(5, 9)):
+                src = r.randrange(len(vals))
+                h, w, c = vals[src]
+                kind = r.choice(["conv", "conv", "pool", "relu"])
+                if kind == "conv":
+                    k = r.choice([1, 3])
+                    st = r.choice([1, 1, 2]) if min(h, w) >= 4 else 1
+                    oc = r.choice([4, 8, 12, 24, 32])
+                    layers.append(dict(op="CONV_2D", k=[k, k], oc=oc, stride=[st, st], dil=[1, 1], pad="SAME", act=r.choice(["NONE", "RELU"]),
+                                       q=[round(r.choice([0.03, 0.05, 0.08]), 3), r.choice([-128, 0, 5])], per_axis=False, wstyle="uniform", wscale=0.01,
+                                       bias=True, seed=r.randrange(1 << 30), **{"in": [src]}))
+                    vals.append((-(-h // st), -(-w // st), oc))
+                elif kind == "pool" and min(h, w) >= 2:
+                    layers.append(dict(op="MAX_POOL_2D", k=[2, 2], stride=[2, 2], pad="SAME", act="NONE", seed=1, **{"in": [src]}))
+                    vals.append((-(-h // 2), -(-w // 2), c))
+                else:
+                    layers.append(dict(op="RELU", seed=1, **{"in": [src]}))
+                    vals.append((h, w, c))
+            used = set(L["in"][0] for L in layers)
+            outs = [i for i in range(1, len(vals)) if i not in used] or [len(vals) - 1]
+            rec = dict(name="net", inputs=[dict(shape=[1, H, W, C], dtype="int8", q=[0.05, -3])], layers=layers, outputs=outs, dup_names=False)
         else:
             H, W, C = r.choice([(8, 8, 8), (6, 5, 16), (12, 4, 8)])
             layers = []
@@ -277,7 +304,7 @@ OPTION_POOL = [
 class C14(check.Check):
     pid = "C14"
     level = "fault_enumeration"
-    quick = dict(cases=320, budget=100, timeout=150)
+    quick = dict(cases=400, budget=100, timeout=150)
     thorough = dict(cases=6000, budget=1500, timeout=400)
     components = {"real": ["vela.main / vela.convert / vela.convert_bytes and the whole compiler with all of its process-global state",
                            "ethosu.vela.api entry points between compilations"],
